@@ -76,7 +76,7 @@ def run(W, p):
             if p["regime"] == "out":
                 W.assume(W.all([W.lt(100 * 800, U[(k, "u", r_)] * dt), W.eq(U[(k, "v", r_)], 0)]), "second particle: leaves the grid")
             elif p["regime"] == "stay":
-                W.assume(W.all([W.lt(-8, U[(k, "u", r_)] * dt), W.lt(U[(k, "u", r_)] * dt, 8), W.eq(U[(k, "v", r_)], 0)]), "second particle: moves < 0.01 cell")
+                W.assume(W.all([W.eq(U[(k, "u", r_)], 0), W.eq(U[(k, "v", r_)], 0)]), "regime particle: does not move")
             else:
                 W.assume(W.all([W.eq(U[(k, "u", r_)] * dt, 800), W.eq(U[(k, "v", r_)], 0)]), "second particle: hops exactly one cell east")
     D = W.frac(3, 4) if p["diff"] else 0  # sqrt(2 D / dt) = 1/20 exactly; the draws are arbitrary reals (C11 treats D, dt symbolically)
